@@ -77,6 +77,8 @@ def shooting_check(cfg, q, out):
     from scipy.optimize import brentq
     F, N = shooting_iota(cfg)
     n = 1
+    if not normal_resolved(q):
+        return n          # the winding number (hence the split of iotaN into iota and N nfp) is only claimed on grids that resolve the normal's rotation
     if N != q.helicity:
         out.append(dict(key='shooting:helicity', what='helicity %r differs from sG*spsi*(winding number of the normal computed from the coefficients) = %d' % (q.helicity, N), cfg=jsonable(cfg)))
     n += 1
